@@ -98,11 +98,39 @@ pub fn run(tier: Tier) -> i32 {
                         }
                     }
                 }
+                // the same program followed by an end-of-stream marker in the SAME coder stream, with the size declared as well:
+                // the decode is size-bounded, so where the reader is left is a property of the bytes alone - just after the
+                // last byte the sized payload needs (or, under the other reading of "payload", just after the marker) - and
+                // never of how much the source shows per refill
+                {
+                    let mut pm = prog.clone();
+                    pm.push(Sym::E);
+                    let e2 = enc::encode(lc, lp, pb, u64::MAX, &pm);
+                    if e2.bad.is_none() {
+                        let file2 = enc::lzma_file(lc, lp, pb, 4096, Some(n), &e2.payload);
+                        let stop_a = 13 + e.payload.len();
+                        let stop_b = file2.len();
+                        let mut seen: Option<usize> = None;
+                        for rd in readers(file2.len(), tier) {
+                            let case = Case::Dec { fmt: Fmt::Lzma, opts: Opts::default(), input: Hex(file2.clone()), rd: rd.clone(), sk: Sk::default() };
+                            let o = run_case(&case);
+                            cases.fetch_add(1, Ordering::Relaxed);
+                            ctx.eval(1);
+                            ctx.nontriv(1);
+                            let pos_ok = (o.consumed == stop_a || o.consumed == stop_b) && seen.map_or(true, |s| s == o.consumed);
+                            if !(o.v.is_ok() && o.out.0 == e.expect && pos_ok) {
+                                ctx.violation(&case, &format!("program [{}] with its size in the header AND an end marker in the coder stream: Ok, output {} and the reader left at byte {} (after the last byte the sized payload needs; {} if the marker counts as payload) - the same position under every reader (first reader: {:?})", prog_str(&prog), brief_bytes(&e.expect), stop_a, stop_b, seen), &o, None);
+                                break;
+                            }
+                            seen = Some(o.consumed);
+                        }
+                    }
+                }
                 if i % 701 == 0 {
                     ctx.sample(json!({"scope": name, "program": prog_str(&prog), "payload_len": e.payload.len()}));
                 }
             });
-            ctx.scope_done(&name, cases.load(Ordering::Relaxed), t0, "3 header kinds x 5 trailers x reader kinds");
+            ctx.scope_done(&name, cases.load(Ordering::Relaxed), t0, "3 header kinds x 5 trailers x reader kinds; size + end marker under every reader kind");
         }
     }
     // ------------------------------------------------------------ LZMA2
@@ -345,7 +373,16 @@ pub fn run(tier: Tier) -> i32 {
                     ctx.violation(&c0, &format!("{}: accepted without a trailer", label), &o0, None);
                     return;
                 }
-                for tr in &trs {
+                // (for .xz also: trailing bytes that are themselves a complete stream - the file again, an empty stream)
+                let mut trs_here: Vec<Vec<u8>> = trs.clone();
+                if *fmt == Fmt::Xz {
+                    trs_here.push(file.clone());
+                    trs_here.push(crate::refmodel::xz::build(&crate::refmodel::xz::XzFile { check_id: 1, ..Default::default() }).0);
+                    let mut padded = vec![0u8; 4];
+                    padded.extend_from_slice(file);
+                    trs_here.push(padded);
+                }
+                for tr in &trs_here {
                     for rd in [Rd::default(), Rd { period: 1, ..Rd::default() }, Rd { bufreader: 3, ..Rd::default() }] {
                         let mut input = file.clone();
                         input.extend_from_slice(tr);
@@ -380,7 +417,7 @@ pub fn run(tier: Tier) -> i32 {
                     }
                 }
             });
-            ctx.scope_done(name, n * trs.len() as u64 * 3, t0, "marker-terminated .lzma and .xz with 6 trailers x 3 readers");
+            ctx.scope_done(name, n * trs.len() as u64 * 3, t0, "marker-terminated .lzma and .xz with 6 trailers (.xz: + 3 trailers that are complete streams) x 3 readers");
         }
     }
     ctx.finish()
